@@ -1146,6 +1146,10 @@ def run(ctx):
     hs['System.fg_to_dae'] = C.hash_source(root + '/andes/system.py', 'System.fg_to_dae')
     hs['Model.l_check_eq'] = C.hash_source(root + '/andes/core/model/model.py', 'Model.l_check_eq')
     ctx.cov['source_hashes'] = hs
+    keys = {}
+    for f in ctx.oracle_failures + ctx.known_hits:
+        keys[f['key']] = keys.get(f['key'], 0) + 1
+    ctx.cov['oracle_failure_keys'] = keys
     ctx.cov['repo_root'] = root
 
 
